@@ -81,3 +81,9 @@ package sessions
 //@   fresh result.0
 //@   ensures [C02 C01] only_what_opens: result.1 == nil ==> result.0 != nil && called(@Cookie#1) && @Cookie#1.1 == nil && arg(@Cookie#1, 1) == s.Name && called(@UnmarshalSession#1) && @UnmarshalSession#1.1 == nil && result.0 == @UnmarshalSession#1.0 && arg(@UnmarshalSession#1, 0) == @Cookie#1.0.Value && arg(@UnmarshalSession#1, 1) == s.CookieCipher
 //@   ensures [C02 C01] no_session_on_error: result.1 != nil ==> result.0 == nil && (result.1 == http.ErrNoCookie || result.1 == ErrInvalidSession)
+
+// ---- C02: the cookie cipher is keyed with the whole cookie secret -------------------------------------------------
+//@ func CreateMiscreantCookieCipher$1(s *CookieStore) error
+//@   modifies s.CookieCipher
+//@   ensures [C02] whole_secret_is_the_key: result == nil ==> called(@NewMiscreantCipher#1) && arg(@NewMiscreantCipher#1, 0) == cookieSecret && @NewMiscreantCipher#1.1 == nil && s.CookieCipher != nil
+//@   ensures [C02] no_cipher_on_error: result != nil ==> s.CookieCipher == old(s.CookieCipher)
